@@ -17,6 +17,8 @@ def run(rep):
     w = rep.world('dev')
     b1(rep, w)
     b2(rep, w)
+    b2w(rep, w)
+    b7(rep, w)
     b3(rep, w)
     import c04_narrow
     c04_narrow.b4(rep, w)
@@ -561,6 +563,37 @@ def b2(rep, w):
             'operand byte order differs between compiler (%s) and VM (%s)' % (sorted(enc), sorted(dec)))
 
 
+def b2w(rep, w, rid='B2w'):
+    """bytecode operands are widened before they take part in arithmetic: a sum/product of two operands in operand width
+    wraps (release) or panics (checked build) although each operand is individually legal"""
+    c = w.yarel
+    r = rep.rule(rid, 'operands read from the bytecode are widened to pointer width before any arithmetic', floor=1)
+    n = 0
+    for f in sorted(c.fns.values(), key=lambda x: x.path):
+        if not f.path.startswith(VM):
+            continue
+        reads = [bi for bi, t in f.calls() if callee_name(t) in READS]
+        if not reads:
+            continue
+        org = origins(f)
+        for bi in sorted(f.normal_blocks()):
+            for s in f.blocks[bi]['s']:
+                rr = s.get('r', {})
+                if rr.get('rv') != 'bin' or not rr['op'].startswith(('Add', 'Sub', 'Mul', 'Shl')):
+                    continue
+                for o in (rr['a'], rr['b']):
+                    pl = op_place(o)
+                    if pl is None:
+                        continue
+                    ty = c.tstr(pl.get('t', f.local_ty(pl['l'])))
+                    if ty in ('u8', 'u16') and any(q[0][0] == 'call' and q[0][2] in READS for q in org.get(pl['l'], ())):
+                        n += 1
+                        r.bad('%s / %s in %s' % (f.path, rr['op'], ty), 'arithmetic on a bytecode operand in its %s width: two legal operands can overflow it '
+                              '(wrap in the optimised build, panic in the checked one)' % ty, f.loc(s.get('sp')))
+        r.ok('%s: operands widened before arithmetic' % f.path, sample=False)
+    r.note('%d narrow-width arithmetic sites' % n)
+
+
 # ---- B3 -------------------------------------------------------------------------------------------------------------
 
 def b3(rep, w):
@@ -602,6 +635,37 @@ def b3(rep, w):
     pos = [bi for bi, t in ts.calls() if callee_name(t) == P + 'patch_offset_at']
     ok = len(pos) == 2 and all(emit.all_clean_paths_pass(ts, {b}) for b in pos)
     r.check(ok, 'try_statement patches both PushExcHandler operands', 'one of the two 0xffff operands of PushExcHandler is left unpatched on an error-free path', ts.loc())
+
+
+def b7(rep, w):
+    """every compiled function ends in an unconditionally emitted Return"""
+    r = rep.rule('B7', 'every function body is terminated: finalise_compiler emits the implicit return on every path, and emit_return always '
+                 'ends with the Return opcode', floor=2)
+    fc = w.require_fn(P + 'finalise_compiler', 'C04')
+    ers = {bi for bi, t in fc.calls() if callee_name(t) == P + 'emit_return'}
+    pops = [bi for bi, t in fc.calls() if strip_generics(callee_name(t) or '') == 'std::vec::Vec::pop']
+    ok = bool(ers) and bool(pops)
+    # every path from entry to the compilers.pop() passes emit_return
+    if ok:
+        seen = set()
+        stack = [0]
+        while stack:
+            b = stack.pop()
+            if b in seen or b in ers:
+                continue
+            seen.add(b)
+            if b in pops:
+                ok = False
+                break
+            stack.extend(fc.succs()[b])
+    r.check(ok, 'finalise_compiler: emit_return on every path before the compiler is popped', 'a function can be finalised without the implicit return: '
+            'control that reaches the end of its code runs off the chunk', fc.loc())
+    er = w.require_fn(P + 'emit_return', 'C04')
+    rets = {bi for (bi, k, o, d) in emit.emissions(w, er) if o == 'Return'}
+    r.check(bool(rets) and c01.all_paths_hit(er, None, rets), 'emit_return emits Return on every path', 'emit_return has a path without the Return opcode', er.loc())
+    # nothing is emitted after Return inside emit_return
+    after = [bi for (bi, k, o, d) in emit.emissions(w, er) if any(bi in er.reachable_blocks(x) and bi != x for x in rets)]
+    r.check(not after, 'Return is the last thing emit_return emits', 'emit_return emits bytes after Return', er.loc())
 
 
 # ---- B5 -------------------------------------------------------------------------------------------------------------
